@@ -56,7 +56,8 @@ def generate(rng, tier):
         if r['op'] == 'read_data' and w.chans[r['ch']].type == 'daqmx' and rng.random() < 0.5:
             r['scaled'] = False
     return {'spec': spec, 'raw_ts': raw_ts, 'cut': cut, 'ops': reqs,
-            'short_seed': rng.getrandbits(32) if rng.random() < 0.3 else None, 'debug_log': rng.random() < 0.05}
+            'short_seed': rng.getrandbits(32) if rng.random() < 0.3 else None, 'debug_log': rng.random() < 0.05,
+            'memmap': rng.random() < 0.12}
 
 
 def _sig(spec):
@@ -96,8 +97,11 @@ def execute(case):
     with store(short_seed=case['short_seed'], record=False) as st, lib.knobs(debug_log=case.get('debug_log', False)):
         st.put('w.tdms', data)
         try:
-            eager = lib.TdmsFile.read(st.source('simstream', 'w.tdms'), raw_timestamps=raw_ts)
-            lazy = lib.TdmsFile.open(st.source('simstream', 'w.tdms'), raw_timestamps=raw_ts)
+            kw = {'memmap_dir': st.realdir()} if case.get('memmap') else {}
+            if kw:
+                res.probe('memmap')
+            eager = lib.TdmsFile.read(st.source('simstream', 'w.tdms'), raw_timestamps=raw_ts, **kw)
+            lazy = lib.TdmsFile.open(st.source('simstream', 'w.tdms'), raw_timestamps=raw_ts, **kw)
         except Exception as exc:
             # opening is C01's / C06's business
             res.skipped_ops += len(case['ops'])
